@@ -183,7 +183,7 @@ class SimOps:
         ops = []
         interface_dict = dict((n, i) for i, n in enumerate(circuit.s_nodes))
         for n in circuit.topological_order():
-            if n in interface_dict:
+            if n in interface_dict and not (n.kind == '__fork__' and len(n.ins) > 0 and n.ins[0] is not None):  # a port fork driven from inside is a wire
                 inp_idx = self.ppi_offset + interface_dict[n]
                 if len(n.outs) > 0 and n.outs[0] is not None:  # first output of a PI/PPI
                     ops.append((BUF1, n.outs[0].index, inp_idx, self.zero_idx, self.zero_idx, self.zero_idx, *a_ctrl[n.outs[0]]))
